@@ -107,3 +107,22 @@ Proof.
   split; [vm_compute; reflexivity|].
   intros k Hk. assert (Hc : In k (seq 0 114)) by (apply in_seq; lia). all_cuts.
 Qed.
+
+(* ---- deadlines ---- *)
+(* a call made under the deadline of its own side is bounded in every exchange it performs,
+   including the implicit version negotiation of a first write-side call with only a write
+   deadline set *)
+Theorem stall_bounded rset wset loaded a :
+  (match op_side a with SRead => rset | SWrite => wset end) = true ->
+  deadline_of rset wset (stalled_exchange loaded a) <> None.
+Proof.
+  intros H. unfold stalled_exchange.
+  assert (Hown : deadline_of rset wset a <> None).
+  { unfold deadline_of. destruct a; cbn [op_side] in *; rewrite ?H; try discriminate;
+      destruct rset; try discriminate; destruct wset; discriminate. }
+  destruct (supported a) as [p|]; [|exact Hown].
+  destruct loaded; [exact Hown|].
+  unfold deadline_of. destruct (op_side a); rewrite H in *.
+  - discriminate.
+  - destruct rset; discriminate.
+Qed.
